@@ -234,3 +234,34 @@ Definition open_verdict_cfg (skip_magic optimistic : bool) (rbs : N) (has_key : 
   | OpenErr e => Some e
   | OpenOk _ => None
   end.
+
+(** * FilePages.SeekToRow, then ReadPage to the end of the column chunk
+
+    file.go, FilePages.SeekToRow / ReadPage.  The chunk is
+    [dict ++ skipped ++ rest] (each a list of (header length, body length)):
+    [dict] the dictionary page if any, [skipped] the data pages that end before
+    the row of the seek, [rest] the page holding that row and the following ones.
+
+    - with an offset index ([noindex = false]) the stream is repositioned at
+      the page of the row (PageLocations[target].Offset): the skipped pages
+      are not requested;
+    - without offset index (SkipPageIndex, or a file without page index) the
+      stream is repositioned at the first data page (f.dataOffset) and f.skip
+      = row: ReadPage reads, checks and decodes every skipped page (readPage:
+      io.ReadFull of the body) and releases it (numRows <= f.skip), then
+      returns the pages of [rest].  A source that ends inside a skipped page is
+      therefore met exactly as when reading sequentially.
+
+    The dictionary of a dictionary-encoded page is loaded lazily from
+    [dict]; when the source ends inside [dict] that load fails, and so does
+    [read_pages] (avail <= consumed < size): the verdict is the same.
+    Result: number of pages ReadPage returned, and how the sequence ended. *)
+Fixpoint pages_len (l : list (N * N)) : N :=
+  match l with [] => 0 | (h, b) :: r => h + b + pages_len r end.
+
+Definition seek_read_pages (cur noindex : bool) (size avail : N)
+           (dict skipped rest : list (N * N)) : nat * pages_end :=
+  if noindex then
+    let '(k, e) := read_pages cur size avail (pages_len dict) (skipped ++ rest) in
+    ((k - length skipped)%nat, e)
+  else read_pages cur size avail (pages_len dict + pages_len skipped) rest.
